@@ -20,7 +20,9 @@ touching the response again, and opcode dispatch is reached from that arm only t
 (d) the key lookup requires the key name AND the configured algorithm to match;
 (e) ReadTsigRr::try_from rejects class != ANY or TTL != 0 with FormErr, and the TTL it tests is the raw field (not a Ttl
 value that has been through the RFC 2181 clamp, for which 0x80000000 reads as 0);
-(f) the TSIG arm is taken only for the last additional record.
+(f) the TSIG arm is taken only for the last additional record;
+(g) the time check accepts exactly |now - time signed| <= fudge at full width: the fudge is widened to u64, the clock
+difference is never narrowed (a skew of k*65536 s must not alias to a small one) -- rule shared with C11.
 Not decided: MAC values (C11), time arithmetic on arbitrary clocks.
 """
 ASSUMPTIONS = ['hmac/sha crates trusted', 'every CFG path is assumed feasible']
@@ -180,3 +182,8 @@ def check(R, F):
     # ---- (f) last record
     g = paths.dom_guards(hm, vcall[0][0]) if vcall else []
     R.require(any(x.startswith('Ne(') and 'Reader::arcount' in x and x.endswith(' in [0]') for x in g) and any(re.match(r'^Type::eq\(PeekRr::rr_type\(.*\),Type\(250_u16\)\) not in \[0\]$', x) for x in g), 'last-record', HMWC + '|tsig-arm-last', hm.where(), 'verification only for the last additional record of type TSIG', 'the TSIG arm is not confined to the last additional record')
+
+    # ---- (g) time window at full width
+    from rules.c11 import check_time_window
+    check_time_window(R, F)
+    R.floor('time-window', 1)
